@@ -1,7 +1,7 @@
 (** Bodies of the built-in functions of Context::default() (functions.rs), applied to the
     values their extractors produced. *)
 From Coq Require Import String.
-From Cel.Model Require Export Context Arith Compare.
+From Cel.Model Require Export Context Arith Compare FloatText.
 From Coq Require Import Decimal DecimalZ.
 
 (** Decimal text of an integer as code points. *)
@@ -102,9 +102,13 @@ Definition ascii_only (b : list N) : bool := forallb (fun c => (c <? 128)%N) b.
 Definition b_string (this : value) : outcome value :=
   match this with
   | VStr s => Ok (VStr s)
-  | VInt z | VUInt z => Ok (VStr (Z_to_str z))
-  | VBytes b => if ascii_only b then Ok (VStr b) else Err EOracle
-  | VDbl _ | VTs _ _ | VDur _ => Err EOracle
+  | VInt z | VUInt z => Ok (VStr (Z_text z))
+  | VBytes b => match utf8_dec b with
+                | Some s => Ok (VStr s)
+                | None => Err EOracle     (* from_utf8_lossy's replacement is not modelled *)
+                end
+  | VDbl f => Ok (VStr (f64_to_text f))
+  | VTs _ _ | VDur _ => Err EOracle
   | _ => ferr
   end.
 
@@ -153,7 +157,10 @@ Definition b_uint (this : value) : outcome value :=
 
 Definition b_double (this : value) : outcome value :=
   match this with
-  | VStr _ => Err EOracle
+  | VStr s => match parse_f64_text s with
+              | Some f => Ok (VDbl f)
+              | None => ferr
+              end
   | VDbl f => Ok (VDbl f)
   | VInt z | VUInt z => Ok (VDbl (f64_of_Z z))
   | _ => ferr
